@@ -370,6 +370,26 @@ static void scen_life(void)
                 VH_CHECK(cx_nev == 0, "events:extra", "a line from argv with nothing to act on produced %d handler call(s)", cx_nev);
                 vh_evals(1); vh_count("argv_lines_with_nothing_to_act_on", 1);
             }
+            /* a line from the command line that names a context and nothing else: the context is opened and closed again (begin, end), both stacks back */
+            {
+                const char *cn1 = life_nreg ? NAMES[(life_ntrees + life_ncustom + 1) % life_nreg] : "nosuchctx";
+                char *l1 = vh_heapstr(cn1);
+                cx_log_reset();
+                int id1 = cx_ctxs_lookup(&ctxs, cn1);
+                cx_expect(id1, 'B', NULL, 0); cx_expect(id1, 'E', NULL, 0);
+                vh_op("  cycle %d: spifconf_parse_line(NULL, %s) -- a context name and nothing else", cyc, vh_qs(l1));
+                spifconf_parse_line(NULL, (spif_charptr_t) l1);
+                free(l1);
+                struct spifconf_verif_state st1; const char *p1 = cx_tables_ok(&st1);
+                if (p1) vh_fail("tables", "after a one-word line from argv: %s", p1);
+                VH_CHECK(fstate_idx == 0 && st1.ctx_state_idx == 0, "parse_line:file-stack", "after spifconf_parse_line(NULL, <context name only>): fstate_idx %u, context stack depth %u (entry values 0, 0)", fstate_idx, st1.ctx_state_idx);
+                cx_slots s1; cx_slots_init(&s1); s1.state[0] = CX_OPAQUE;
+                const char *key1 = NULL; long ns1 = 0;
+                const char *d1 = cx_compare_events(&ctxs, &s1, &key1, &ns1);
+                if (d1) vh_fail(key1, "cycle %d, one-word line from argv: %s", cyc, d1);
+                for (int i = 0; i < cx_nev; i++) dg = vh_mix(dg, (uint64_t) cx_evs[i].kind * 1000 + (uint64_t) cx_evs[i].ctx);
+                vh_evals(1); vh_count("argv_lines_with_a_context_name_only", 1);
+            }
             /* one configuration line handed over from the command line (stream argument NULL, "<context> <line>"): a begin, the line and an
              * end for that context, and both stacks back where they were */
             const char *cn = life_nreg ? NAMES[(life_ntrees + life_ncustom) % life_nreg] : "nosuchctx";      /* the same in every cycle */
